@@ -179,6 +179,7 @@ func c09Variants() []Variant {
 		{Name: "truncate-with-other-index", File: "core/state/statedb.go", Old: "	st.valValidRevisions = st.valValidRevisions[:valIdx]", New: "	st.valValidRevisions = st.valValidRevisions[:idx]", Rule: "C09.J3", Construct: "truncation"},
 		{Name: "forget-one-reset", File: "core/state/statedb.go", Old: "	st.validRevisions = st.validRevisions[:0]\n	st.valValidRevisions = st.valValidRevisions[:0]\n", New: "	st.validRevisions = st.validRevisions[:0]\n", Rule: "C09.J3", Construct: "clearJournalAndRefund"},
 		{Name: "record-before-balance-check", File: "staking/handler.go", Old: "	db := ctx.State\n	if !core.CanTransfer(db, ctx.Msg.From(), tx.Value) {\n		return errInsufficientBalanceForDeposit\n	}\n", New: "	db := ctx.State\n	db.AddStakingRecord(common.Address{}, tx.MainAddress, ctx.Msg.TxHash(), nil)\n	if !core.CanTransfer(db, ctx.Msg.From(), tx.Value) {\n		return errInsufficientBalanceForDeposit\n	}\n", Rule: "C09.J4", Construct: "handleDeposit"},
+		{Name: "remove-undo-keeps-the-mark", File: "core/state/journal.go", Old: "	ch.oldVal.deleted = false\n", New: "", Rule: "C09.J13", Construct: "validatorDeleteChange"},
 	}
 }
 
